@@ -3,7 +3,7 @@ CONSTANTS
   Mutant = "none"
   MaxWire = 2
   Terms = {1, 2}
-  Indexes = {0, 1}
+  Indexes = {0}
   MaxEnts = 1
   Sizes = {1}
   Commits = {0, 1}
